@@ -12,6 +12,8 @@ from bvspec import *
 from units import BVUnit
 
 P = ["C09", "C17"]
+import os
+SOLVER = os.environ.get("JPV_ENC_SOLVER", "").split() if os.environ.get("JPV_ENC_SOLVER") else []
 G1A, G2A = "Affine<Fq, Fr, g1_b_coeff_var>", "Affine<Fq2, Fr, g2_b_coeff_var>"
 
 
@@ -132,7 +134,7 @@ def units():
             for op, contract, bodies, canary in (("decode", c_decode(G, c), bodies_d, ("jpv_sg_called == 1", "jpv_sg_called == 2")),
                                                  ("encode", c_encode(G, c), bodies_e, ("(%s & 0x40) == 0" % "self->data[0]", "(%s & 0x40) != 0" % "self->data[0]"))):
                 q = E + "::" + op
-                u = BVUnit(q, {q: contract}, P, bodies=bodies, unwind=200, spec_prelude=PRELUDE, canary=canary, timeout=1200,
+                u = BVUnit(q, {q: contract}, P, bodies=bodies, unwind=200, spec_prelude=PRELUDE, canary=canary, timeout=1200, solver=SOLVER,
                            note="field byte I/O, negate, compare: ghost stubs stating the C02/C04 contracts on plain integers; curve predicates: recorded oracles")
                 u.stub_factory = stubs_for
                 u.optional_bodies = ["is_canonical_coordinate", "Fq2::write_big_endian", "Fq2::read_big_endian"] if op == "decode" else []
